@@ -389,23 +389,60 @@ func c06Size(c *Ctx) (evals int64) {
 			}
 		}
 	}
-	// three hundred blocking rules that share one shortcut, then one exception: through the engines
-	{
-		var lines []string
-		for i := 0; i < 300; i++ {
-			lines = append(lines, fmt.Sprintf("%s$domain=f%03d.example|src.org", c06Pat, i))
-		}
-		lines = append(lines, "@@"+c06Pat)
-		st := stringStorage(joinLines(lines) + "\n")
-		req := rules.NewRequest(c06URL, c06Src, rules.TypeScript)
-		b1 := urlfilter.NewEngine(st).MatchRequest(req).GetBasicResult()
-		b2, _ := urlfilter.NewNetworkEngine(st).Match(req)
-		evals += 2
-		for which, b := range []*rules.NetworkRule{b1, b2} {
-			if c06ClassOfRule(b) != 2 {
-				c.Run.Violate(ev.Violation{Pred: "engine-verdict-equals-reference", Sig: map[string]any{"size": 301, "engine": which},
-					What:   fmt.Sprintf("%s over 300 domain-specific blocking rules and one exception for %s: %s, documented precedence gives allow", []string{"Engine.MatchRequest", "NetworkEngine.Match"}[which], c06URL, renderNetText(b)),
-					Replay: map[string]any{"doc_only": true}})
+	// three hundred rules that share one shortcut (of several 5-byte windows, and of exactly one), the one
+	// exception among them first, in the middle or last, in one list or split over three: through the engines
+	for _, pc := range []struct{ pat, url, host string }{{c06Pat, c06URL, "ads.example.com"}, {"||a.com^", "http://a.com/x.js", "a.com"}} {
+		for _, filler := range []string{"domain=f%03d.example|src.org", "client=device%03d"} {
+			for _, pos := range []int{0, 150, 300} {
+				var lines []string
+				for i := 0; i < 300; i++ {
+					if i == pos {
+						lines = append(lines, "@@"+pc.pat)
+					}
+					lines = append(lines, pc.pat+"$"+fmt.Sprintf(filler, i))
+				}
+				if pos == 300 {
+					lines = append(lines, "@@"+pc.pat)
+				}
+				lines = append(lines, pc.pat)
+				for _, split := range []int{1, 3} {
+					var lists []filterlist.RuleList
+					per := (len(lines) + split - 1) / split
+					for k := 0; k < split; k++ {
+						lo, hi := k*per, (k+1)*per
+						if hi > len(lines) {
+							hi = len(lines)
+						}
+						lists = append(lists, &filterlist.StringRuleList{ID: []int{7, 3, 5}[k], RulesText: joinLines(lines[lo:hi]) + "\n", IgnoreCosmetic: false})
+					}
+					st, err := filterlist.NewRuleStorage(lists)
+					if err != nil {
+						panic(HarnessError(err.Error()))
+					}
+					req := rules.NewRequest(pc.url, c06Src, rules.TypeScript)
+					b1 := urlfilter.NewEngine(st).MatchRequest(req).GetBasicResult()
+					b2, _ := urlfilter.NewNetworkEngine(st).Match(req)
+					got := []*rules.NetworkRule{b1, b2}
+					names := []string{"Engine.MatchRequest", "NetworkEngine.Match"}
+					if strings.HasPrefix(filler, "client") {
+						st2, _ := filterlist.NewRuleStorage(lists)
+						dres, _ := urlfilter.NewDNSEngine(st2).MatchRequest(&urlfilter.DNSRequest{Hostname: pc.host})
+						var d *rules.NetworkRule
+						if dres != nil {
+							d = dres.NetworkRule
+						}
+						got = append(got, d)
+						names = append(names, "DNSEngine.MatchRequest")
+					}
+					for which, b := range got {
+						evals++
+						if c06ClassOfRule(b) != 2 {
+							c.Run.Violate(ev.Violation{Pred: "engine-verdict-equals-reference", Sig: map[string]any{"size": len(lines), "engine": names[which], "pattern": pc.pat, "filler": filler, "exception_at": pos, "lists": split},
+								What:   fmt.Sprintf("%s over %d rules in %d list(s): 300 x %q, %q and the exception %q at position %d, request %s: %s, documented precedence gives allow", names[which], len(lines), split, pc.pat+"$"+filler, pc.pat, "@@"+pc.pat, pos, pc.url, renderNetText(b)),
+								Replay: map[string]any{"doc_only": true}})
+						}
+					}
+				}
 			}
 		}
 	}
